@@ -276,8 +276,8 @@ def class_source(rec):
         inherit_policy = sub and o.get("sub_inherits_policy")  # the subclass states neither frozen nor do_not_copy: both are inherited
         if o.get("frozen") and not inherit_policy:
             args.append("frozen=True")
-        if inherit_policy:
-            pass
+        if inherit_policy or (o.get("sub_only_policy") and not sub):
+            pass  # (sub_only_policy: the PARENT states no copy policy; the spec subclass names an inherited attribute in its list)
         elif o.get("do_not_copy") is True:
             args.append("do_not_copy=True")
         elif o.get("do_not_copy"):
@@ -865,6 +865,8 @@ def policy_inheritance_records():
          "opts": {"do_not_copy": ["nums"], "inherit": "spec_sub_add", "sub_inherits_policy": True}},
         {"name": "DncInheritedRedefault", "attrs": [{"kind": "nums", "default": "mut"}, {"kind": "leaf", "default": "mut"}],
          "opts": {"do_not_copy": ["leaf"], "inherit": "spec_sub_redefault", "sub_inherits_policy": True}},
+        {"name": "DncSubOnly", "attrs": [{"kind": "nums", "default": "mut"}, {"kind": "int", "default": "lit"}, {"kind": "kids", "default": "mut"}],
+         "opts": {"do_not_copy": ["nums"], "inherit": "spec_sub_add", "sub_only_policy": True}},
         single("nums", "attr_dnc"),
         {"name": "AttrDncPlusOther", "attrs": [{"kind": "leaf", "default": "attr_dnc"}, {"kind": "nums", "default": "mut"}], "opts": {}},
     ]
